@@ -59,7 +59,7 @@ PROPS = {
     "C04": {"level": "other", "explanation": "layout of arguments/results (names, order, stacking per compactness level, parameters last, result k = successor of state argument k, no free symbol) checked by executing to_function, its helpers and Network.elements/states/... symbolically against the layout written from the property statement; element enumeration order links-origins-destinations", "trusted_base": [T_FUN, T_SPINE]},
     "C05": {"level": "other", "explanation": "extra outputs are Link.get_flow of every link and origin.get_flow(net, engine, **parameters, **other_parameters) of every origin, in enumeration order - the same calls (same contract term) the queue update and the node inflow use; Link.get_flow = rho*v*lanes and the step_dynamics postconditions are proved", "trusted_base": [T_VIEW, T_FUN, T_SPINE]},
     "C06": {"level": "other", "explanation": "is_valid itself (four loops with a duplicate count) is outside the prover's reach: decided by the bounded stand-in (exhaustive small graphs incl. self-loops, cycles, shared and same-named objects, plus random larger ones) against the nine documented conditions; the per-node link views it relies on are verified (views.py)", "trusted_base": [T_NX]},
-    "C07": {"level": "proof", "explanation": "safety half of all contracts: no exception, indices/keys/asserts, shapes (next state = state), engine primitives keep every partial operation inside its domain under the admissible precondition (both engines, all argument-shape configurations incl. the NumPy engine's own (1,) variables and exact zeros)", "trusted_base": [T_VIEW, T_FUN, T_SPINE, "finiteness at the element layer: the admissible-domain preconditions of the primitives are assumed to be met by admissible states (checked natively by the bounded stand-in)"]},
+    "C07": {"level": "proof", "explanation": "safety half of all contracts: no exception, indices/keys/asserts, shapes (next state = state), engine primitives keep every partial operation inside its domain under their admissible precondition (both engines, all argument-shape configurations incl. the NumPy engine's own (1,) variables and exact zeros), and the element layer is proved to call them inside that precondition for every admissible state (positive parameters, non-negative states, excluding the model's own 0/0 cases)", "trusted_base": [T_VIEW, T_FUN, T_SPINE]},
     "C08": {"level": "proof", "explanation": "representation invariant: a cached lookup is either dropped by the mutator (the real invalidate_cache wrapper is interpreted) or cannot change because the graph regions it reads are disjoint from the regions the mutator writes; holds after every interleaving of mutators and reads (no bound on histories)", "trusted_base": [T_NX]},
     "C09": {"level": "other", "explanation": "each add_* makes exactly the described networkx call (node, edge direction, attribute key, replace on existing node) - proved; add_path is executed for every path shape up to length 5 (bounded) with and without origin/destination: accepted iff well-formed, only Node objects ever reach add_node/add_origin/add_destination", "trusted_base": [T_NX, "add_path: path length <= 5 (bounded)"]},
     "C10": {"level": "proof", "explanation": "the proved postconditions are stated through spec functions whose state reads are checked, case by case, to lie inside the allowed footprint", "trusted_base": [T_VIEW]},
